@@ -6,6 +6,7 @@ from common import proof_gate, proof_coverage
 from c06 import Interner, c_comment, c_viol
 
 MODE = {'oneshot': 'OneShot', 'twophase': 'TwoPhase', 'twophase-nodirs': 'TwoPhaseNoDirs'}
+CLIENT = ('client', 'client-mixed')
 
 
 def nlist(xs):
@@ -60,7 +61,7 @@ def run(ctx):
         ov_out = os.path.join(ctx.tmp, 'c09_overlay_out.jsonl')
         hist = collections.defaultdict(list)
         for hr in by['history']:
-            hist[hr['ws']].append(hr['states'])
+            hist[hr['ws']].append({'states': hr['states'], 'lsp': bool(hr.get('lsp'))})
         json.dump({
             'rules_dir': os.path.join(wd, 'rules'),
             'enable': [k.split('/')[1] for k in wss[0]['brules'] + wss[0]['ckeys']],
@@ -99,7 +100,7 @@ def run(ctx):
             for f in w['files'])
         ws_aggs = sorted({i for f in w['files'] for l in list(f['baggs'].values()) + list(f['caggs'].values()) for i in l})
         body.append('Definition W%d_files : list cfile := %s.' % (wi, files))
-        per_ws[name] = {'runs': [], 'collects': [], 'caches': [], 'w': w, 'aggs': ws_aggs}
+        per_ws[name] = {'runs': [], 'collects': [], 'caches': [], 'clients': [], 'lsps': [], 'w': w, 'aggs': ws_aggs}
     orc = collections.defaultdict(lambda: ([], []))
     # oracle rows are emitted while a workspace is processed: attribute them by position in the stream
     cur = None
@@ -122,7 +123,7 @@ def run(ctx):
     runs = [r for r in by['run'] if not r.get('err')]
     run_errs = [r for r in by['run'] if r.get('err')]
     for r in runs:
-        per_ws[r['ws']]['runs'].append(r)
+        per_ws[r['ws']]['clients' if r['mode'] in CLIENT else 'runs'].append(r)
     collects = [c for c in by['collect'] if not c.get('err')]
     for c in collects:
         per_ws[c['ws']]['collects'].append(c)
@@ -147,6 +148,14 @@ def run(ctx):
         unknown_entries += u
         per_ws[c['ws']]['caches'].append(c)
 
+    lsps = [r for r in ov_by['lsp']]
+    for r in lsps:
+        per_ws[r['ws']]['lsps'].append(r)
+
+    def cgomap(m):
+        return clist('(%s, %s)' % (I.s(f), clist('(%s, %s)' % (I.s(k), clist(I.s(n) for n in (m[f][k] or [])))
+                                                  for k in sorted(m[f] or {}))) for f in sorted(m or {}))
+
     def c_op(o):
         if o['op'] == 'setall':
             return 'OpSetAll ' + nlist(o['ids'])
@@ -162,19 +171,36 @@ def run(ctx):
                 MODE[r['mode']], clist(nlist(x) for x in r['parts']), clist(c_viol(I, v) for v in r['obs']))
             for r in p['runs'])))
         body.append('Definition collects%d : list collect_case := %s.' % (wi, clist(
-            '{| cc_part := %s; cc_use := %s; cc_keys := %s; cc_obs := %s |}' % (
+            '{| cc_part := %s; cc_use := %s; cc_keys := %s; cc_obs := %s; cc_dirs := %s |}' % (
                 nlist(c['part']), cbool(c['use_collect']),
                 clist('(%s, %s)' % (I.s(k), nlist(c['keys'][k])) for k in sorted(c['keys'])),
-                clist(c_viol(I, v) for v in c['obs']))
+                clist(c_viol(I, v) for v in c['obs']), cgomap(c.get('dirs') or {}))
             for c in p['collects'])))
         body.append('Definition caches%d : list cache_case := %s.' % (wi, clist(
-            '{| kc_ops := %s; kc_state := %s; kc_dump := %s; kc_report := %s; kc_fresh := %s |}' % (
+            '{| kc_ops := %s; kc_state := %s; kc_dump := %s; kc_dirs := %s; kc_report := %s; kc_fresh := %s |}' % (
                 clist(c_op(o) for o in c['ops']), nlist(c['state']),
-                clist('(%s, %s)' % (I.s(k), nlist(l)) for k, l in c['_dump']),
+                clist('(%s, %s)' % (I.s(k), nlist(l)) for k, l in c['_dump']), cgomap(c.get('dirs') or {}),
                 clist(c_viol(I, v) for v in c['report']), clist(c_viol(I, v) for v in c['fresh']))
             for c in p['caches'])))
+        body.append('Definition clients%d : list client_case := %s.' % (wi, clist(
+            '{| cl_ops := %s; cl_state := %s; cl_mixed := %s; cl_obs := %s |}' % (
+                clist(c_op(o) for o in r['ops']), nlist([i for x in r['parts'] for i in x]),
+                ('Some %d' % r['mixed']) if r['mode'] == 'client-mixed' else 'None',
+                clist(c_viol(I, v) for v in r['obs']))
+            for r in p['clients'])))
+        body.append('Definition lsps%d : list lsp_case := %s.' % (wi, clist(
+            '{| lc_brules := %s; lc_ops := %s; lc_state := %s; lc_dirs := %s; lc_incr := %s; lc_fresh := %s |}' % (
+                clist(I.s(k) for k in w['brules'] if k.split('/')[1] in r['agg_rules']),
+                clist(c_op(o) for o in r['ops']), nlist(r['state']), cgomap(r.get('dirs') or {}),
+                clist(c_viol(I, v) for v in r['incr_viols']), clist(c_viol(I, v) for v in r['fresh_viols']))
+            for r in p['lsps'])))
         for tag, fn, lst in (('Rrun', 'run_agrees', 'runs'), ('Rcons', 'run_model_consistent', 'runs'),
                              ('Rcol', 'collect_agrees', 'collects'), ('Rcolrep', 'collect_report_agrees', 'collects'),
+                             ('Rcoldirs', 'collect_dirs_agrees', 'collects'),
+                             ('Rcli', 'client_agrees', 'clients'), ('Rclicons', 'client_model_consistent', 'clients'),
+                             ('Rcdirs', 'cache_dirs_agrees', 'caches'),
+                             ('Rldirs', 'lsp_dirs_agrees', 'lsps'), ('Rlrep', 'lsp_report_agrees', 'lsps'),
+                             ('Rlfresh', 'lsp_fresh_agrees', 'lsps'), ('Rlcons', 'lsp_model_consistent', 'lsps'),
                              ('Rdump', 'cache_dump_agrees', 'caches'),
                              ('Rcrep', 'cache_report_agrees', 'caches'), ('Rfresh', 'cache_fresh_agrees', 'caches')):
             nm = '%s%d' % (tag, wi)
@@ -222,6 +248,28 @@ def run(ctx):
                        signature={'kind': 'two-phase-vs-one-shot',
                                   'key': json.dumps([sorted((f['name'], f['text']) for f in fs),
                                                      [[next(f['name'] for f in fs if f['id'] == i) for i in p] for p in r['parts']]])})
+    # (1b) a client along a history (ONE directive map updated from every run's export; per-file collects) != one-shot
+    cli_bad = [r for r in runs if r['mode'] in CLIENT and not r['pred_ok']]
+    cli_bad.sort(key=lambda r: (len(r['ops']), r['mode'], len(json.dumps(r))))
+    for r in cli_bad[:1]:
+        w = wss[idx[r['ws']]]
+        flat = [i for p in r['parts'] for i in p]
+        need = flat + [o['id'] for o in r['ops'] if o['op'] == 'setfile' and o['id'] not in flat]
+        fs = files_of(w, need)
+        names = {f['id']: f['name'] for f in fs}
+        diff = {'incremental_only': [x for x in r['obs'] if x not in (r.get('oneshot') or [])],
+                'one_shot_only': [x for x in (r.get('oneshot') or []) if x not in r['obs']]}
+        vlib.violation(ctx, {'kind': 'incremental-vs-one-shot', 'case': {'run': r, 'files': fs}, 'difference': diff,
+                             'what': 'a client that re-lints one file at a time (collect query, export) and keeps ONE map of ignore '
+                                     'directives updated from every Report.IgnoreDirectives, after the operations %s: the %s differs '
+                                     'from one Lint call over the current files' % (
+                                         [(o['op'], o.get('name')) for o in r['ops']],
+                                         'run that lints the last file itself WithAggregates + WithIgnoreDirectives(map of before)'
+                                         if r['mode'] == 'client-mixed' else 'report-only run WithAggregates + WithIgnoreDirectives')},
+                       signature={'kind': 'incremental-vs-one-shot',
+                                  'key': json.dumps([[(o['op'], names.get(o.get('id')) or o.get('name'),
+                                                       next((f['text'] for f in fs if f['id'] == o.get('id')), '')) for o in r['ops']],
+                                                     r['mode']])})
     # (2) incremental (cache.Cache / language server functions) != fresh
     inc_bad = []
     for c in ov_by['cache']:
@@ -267,10 +315,20 @@ def run(ctx):
                  'Rcons': 'run_model_consistent (the model itself: two_phase = one_shot on the observed tables)',
                  'Rcol': 'collect_agrees (exported Report.Aggregates vs collect)',
                  'Rcolrep': 'collect_report_agrees (aggregate violations reported by a collect run itself)',
+                 'Rcoldirs': 'collect_dirs_agrees (Report.IgnoreDirectives of a run: one entry per linted file, also an empty one)',
+                 'Rcli': 'client_agrees (per-file collects + ONE directive map along a history vs api_history / api_report)',
+                 'Rclicons': 'client_model_consistent (the model itself: api_report after a history = one_shot of the final files)',
+                 'Rcdirs': 'cache_dirs_agrees (cache.GetIgnoreDirectives after every step vs lsp_history: a re-linted file '
+                           'replaces its entry, also by none)',
+                 'Rldirs': 'lsp_dirs_agrees (directive cache after updateFileDiagnostics vs lsp_history)',
+                 'Rlrep': 'lsp_report_agrees (aggregate diagnostics of updateAllDiagnostics(aggregatesReportOnly) vs lsp_report)',
+                 'Rlfresh': 'lsp_fresh_agrees (aggregate diagnostics of a cache linted from scratch vs one_shot)',
+                 'Rlcons': 'lsp_model_consistent (the model itself: lsp_report after a history = one_shot of the final files)',
                  'Rdump': 'cache_dump_agrees (cache.GetFileAggregates vs Model.AggCache)',
                  'Rcrep': 'cache_report_agrees (report from cached aggregates)',
                  'Rfresh': 'cache_fresh_agrees (fresh one-shot in the overlay)'}
-        for tag in ('Rcol', 'Rrun', 'Rcolrep', 'Rcons', 'Rdump', 'Rcrep', 'Rfresh'):
+        for tag in ('Rcol', 'Rcoldirs', 'Rrun', 'Rcolrep', 'Rcons', 'Rcli', 'Rclicons', 'Rdump', 'Rcdirs', 'Rcrep', 'Rfresh',
+                    'Rldirs', 'Rlrep', 'Rlfresh', 'Rlcons'):
             if bad[tag]:
                 w, c = min(bad[tag], key=lambda wc: len(json.dumps({k: v for k, v in wc[1].items() if k != '_dump'})))
                 vlib.violation(ctx, {'kind': 'correspondence', 'relation': 'Check.C09Check.' + names[tag],
@@ -297,11 +355,21 @@ def run(ctx):
     for r in runs:
         hist['%s %s parts=%d' % (r['mode'], re.sub(r'\d+\.\d+$', '', r['src']), len(r['parts']))] += 1
     rules_seen = collections.Counter(v['title'] for r in runs for v in r['obs'])
-    distinct = len({json.dumps([r['ws'], r['mode'], r['parts']]) for r in runs}) + \
+    distinct = len({json.dumps([r['ws'], r['mode'], r['parts'], r.get('ops')]) for r in runs}) + \
         len({json.dumps([c['ws'], c['part'], c['use_collect']]) for c in collects}) + \
         len({json.dumps([c['ws'], c['ops']]) for c in caches}) + len({json.dumps([r['ws'], r['files'], r['step']]) for r in ov_by['lsp']})
     marker_lost = [c for c in ov_by['cache'] if any(x['title'] == 'nothing-aggregated' for x in c.get('fresh') or [])
                    and not any(x['title'] == 'nothing-aggregated' for x in c.get('report') or [])]
+    # steps (cache history) in which a re-linted file went from some directives to none
+    lost_last = 0
+    prev_dirs = {}
+    for c in sorted(ov_by['cache'], key=lambda c: (c['ws'], c['history'], c['step'])):
+        k = (c['ws'], c['history'])
+        before = prev_dirs.get(k, {}) if c['step'] > 0 else {}
+        for f, d in (c.get('dirs') or {}).items():
+            if not d and before.get(f):
+                lost_last += 1
+        prev_dirs[k] = c.get('dirs') or {}
     cov = proof_coverage(ctx, {
         'evaluations': len(runs) + len(collects) + len(caches) + len(ov_by['lsp']) + len(by['oracle']),
         'distinct_nontrivial': distinct,
@@ -312,6 +380,9 @@ def run(ctx):
         'runs': len(runs), 'collect_runs': len(collects), 'oracle_rows': len(by['oracle']),
         'oracle_rows_checked_for_permutation_invariance': len([o for o in by['oracle'] if len(o['ids']) > 1]),
         'cache_steps': len(caches), 'lsp_steps': len(ov_by['lsp']),
+        'client_history_steps': len([r for r in runs if r['mode'] in CLIENT]),
+        'client_vs_one_shot_failures': len(cli_bad),
+        'steps_where_a_file_lost_its_last_directive': lost_last,
         'violations_seen_by_rule': dict(rules_seen), 'histogram': dict(hist),
         'mismatches': {k: len(vv) for k, vv in bad.items()},
         'glue_self_tests': selftest, 'glue_self_tests_blind': selftest_blind,
